@@ -235,20 +235,39 @@ Proof.
     repeat rewrite count_occ_app. cbn [count_occ]. lia.
 Qed.
 
+Lemma recvmsg_noctrl_fds n q e c q' : recvmsg n false q = (e, c, q') -> ev_fds e = [].
+Proof.
+  unfold recvmsg. destruct q as [|s r]; [intros H; injection H as <- _ _; reflexivity|].
+  destruct (seg_fds s); [intros H; injection H as <- _ _; reflexivity|].
+  cbn [andb]. intros H. injection H as <- _ _. reflexivity.
+Qed.
+
+Lemma recv_data_loop_fds fuel : forall len acc cl q,
+  match recv_data_loop fuel len acc cl q with
+  | RxD _ c q' => same_fds (cl ++ stream_fds q) (c ++ stream_fds q')
+  | RxDRetry c q' => same_fds (cl ++ stream_fds q) (c ++ stream_fds q')
+  end.
+Proof.
+  induction fuel as [|f IH]; intros len acc cl q; cbn [recv_data_loop]; [fds_lia|].
+  destruct (Nat.leb len (List.length acc)); [fds_lia|].
+  destruct (recvmsg _ false q) as [[e c] q'] eqn:E.
+  pose proof (recvmsg_fds _ _ _ _ _ _ E) as H. rewrite (recvmsg_noctrl_fds _ _ _ _ _ E) in H. cbn [app] in H.
+  destruct e as [bs fds| |lost].
+  - destruct bs as [|b bs'].
+    + intro x. specialize (H x). revert H. repeat rewrite count_occ_app. lia.
+    + specialize (IH len (acc ++ b :: bs') (cl ++ c) q').
+      destruct (recv_data_loop f len (acc ++ b :: bs') (cl ++ c) q');
+        intro x; specialize (H x); specialize (IH x); revert H IH; repeat rewrite count_occ_app; lia.
+  - intro x. specialize (H x). revert H. repeat rewrite count_occ_app. lia.
+  - intro x. specialize (H x). revert H. repeat rewrite count_occ_app. lia.
+Qed.
+
 Lemma recv_data_fds len q :
   match recv_data len q with
   | RxD _ c q' => same_fds (stream_fds q) (c ++ stream_fds q')
   | RxDRetry c q' => same_fds (stream_fds q) (c ++ stream_fds q')
   end.
-Proof.
-  unfold recv_data. destruct (recvmsg len false q) as [[e c] q'] eqn:E.
-  pose proof (recvmsg_fds _ _ _ _ _ _ E) as H.
-  assert (He : ev_fds e = []).
-  { unfold recvmsg in E. destruct q as [|s r]; [injection E as <- _ _; reflexivity|].
-    destruct (seg_fds s); [injection E as <- _ _; reflexivity|].
-    cbn [andb] in E. injection E as <- _ _. reflexivity. }
-  rewrite He in H. destruct e; exact H.
-Qed.
+Proof. unfold recv_data. exact (recv_data_loop_fds _ len [] [] q). Qed.
 
 Lemma dispatch_fds_same cfg s o h files size buf :
   let out := snd (dispatch cfg s o h files size buf) in
